@@ -26,6 +26,9 @@ def trace_cov(run, stats):
     run.cov["untraceable_entries"] = [a for s in stats if s for a in s.get("aborts", [])][:40]
 
 
+# the same oracle once more on GLM's SIMD kernels (aligned types by default, intrinsics at the AVX2 level): the properties are stated for every configuration
+SIMD_AVX2 = ("simd_avx2", ["-mavx2", "-DGLM_FORCE_INTRINSICS", "-DGLM_FORCE_DEFAULT_ALIGNED_GENTYPES"])
+SIMD_SSE2 = ("simd_sse2", ["-msse2", "-DGLM_FORCE_INTRINSICS", "-DGLM_FORCE_DEFAULT_ALIGNED_GENTYPES"])
 def oracle_sweep(run, pid, variants, tier, opt="-O0"):
     """variants: list of (suffix, flags, std). builds tools/oracle/oracle_<pid>.cpp per variant and runs `sweep seed tier`."""
     src = os.path.join(core.VERIF, "tools", "oracle", "oracle_%s.cpp" % pid)
@@ -135,7 +138,7 @@ def run_C03(run):
             elif l.startswith("TOTAL "):
                 m = re.search(r"rows=(\d+).*lanes=(\d+)", l)
                 if m: rows = int(m.group(1)); lanes += int(m.group(2))
-        if rc not in (0, 1): run.broken.append({"what": "table comparison failed for %s" % name, "detail": (e2 or out)[-1500:]})
+        if rc not in (0, 1) or "TOTAL " not in out: run.broken.append({"what": "table comparison did not complete for %s (comparator error)" % name, "detail": (e2 or out)[-1500:]})
     for name, (outs, err) in res.items():   # the tables are large: keep only the first of each build for replay
         for f in (outs or [])[1:]:
             try: os.remove(f)
@@ -177,7 +180,7 @@ def run_C02(run):
     gens = [os.path.join(run.dir, "Gen_C02_%s.v" % k) for k, _ in kinds if os.path.exists(os.path.join(run.dir, "Gen_C02_%s.v" % k))]
     run.prove(gens, [], ["C02/P_C02_products.v", "C02/P_C02_elementwise.v"], "C02/Properties_C02.v")
     types = ["float", "int"] if run.tier == "quick" else ["float", "int", "double", "unsigned"]
-    fails = oracle_sweep(run, "C02", [(t, ["-DORC_T=" + t]) for t in types], run.tier)
+    fails = oracle_sweep(run, "C02", [(t, ["-DORC_T=" + t]) for t in types] + [("simd_avx2_float", ["-DORC_T=float"] + SIMD_AVX2[1]), ("simd_sse2_float", ["-DORC_T=float"] + SIMD_SSE2[1])], run.tier)
     run.fails = run.triage(fails)
     run.assumptions = ["floating-point statements are about the real-number value of the traced expression tree plus its structure (each output is a sum of exactly K single products: one IEEE rounding per product and per sum); no numeric error bound is proved",
                        "sized 8/16/64-bit integer element types and double are covered by the oracle sweep only (thorough tier), not by theorems"]
@@ -192,7 +195,7 @@ def run_C10(run):
     trace_cov(run, stats)
     gens = [os.path.join(run.dir, "Gen_C10_f32.v")] if stats[0] else []
     run.prove(gens, ["C10/A_C10_defs.v"], ["C10/P_C10_det.v", "C10/P_C10_inverse.v", "C10/P_C10_invtr.v", "C10/P_C10_misc.v"], "C10/Properties_C10.v", timeout=1500)
-    fails = oracle_sweep(run, "C10", [("all", [])], run.tier)
+    fails = oracle_sweep(run, "C10", [("all", []), SIMD_AVX2, SIMD_SSE2], run.tier)
     run.fails = run.triage(fails)
     run.assumptions = ["statements are about the exact real-number value of the traced float expression trees under det(M) <> 0; the rounding bound 'proportional to the condition number' is NOT proved (only exercised by the oracle with tolerance 64*eps*kappa)",
                        "double precision shares the template code with float (same trace up to the kind annotation); it is exercised by the oracle only",
@@ -301,7 +304,7 @@ def run_C12(run):
     trace_cov(run, stats)
     gens = [os.path.join(run.dir, "Gen_C12.v")] if stats[0] else []
     run.prove(gens, [], ["C12/P_C12.v", "C12/P_C12_b.v", "C12/P_C12_c.v", "C12/P_C12_d.v"], "C12/Properties_C12.v")
-    fails = oracle_sweep(run, "C12", [("all", [])], run.tier)
+    fails = oracle_sweep(run, "C12", [("all", []), SIMD_AVX2, SIMD_SSE2], run.tier)
     run.fails = run.triage(fails)
     run.assumptions = ["identities are over the exact real value of the traced float expressions (sqrt = real square root); 'within rounding' is exercised by the oracle only",
                        "the matrix orthonormalize is traced but has no theorem (oracle / trace self-validation only); angle / orientedAngle / l1-l2-lMax-lx norms / triangleNormal / vector orthonormalize / closestPointOnLine are theorems",
@@ -318,7 +321,7 @@ def run_C04(run):
     trace_cov(run, stats)
     gens = [os.path.join(run.dir, m + ".v") for m, _ in cfgs if os.path.exists(os.path.join(run.dir, m + ".v"))]
     run.prove(gens, [], ["C04/P_C04_a.v", "C04/P_C04_euler.v", "C04/P_C04_wxyz.v", "C04/P_C04_axis.v", "C04/P_C04_cast.v", "C04/P_C04_aa.v", "C04/P_C04_two.v"], "C04/Properties_C04.v")
-    fails = oracle_sweep(run, "C04", [("xyzw", []), ("wxyz", ["-DGLM_FORCE_QUAT_DATA_WXYZ"])], run.tier)
+    fails = oracle_sweep(run, "C04", [("xyzw", []), ("wxyz", ["-DGLM_FORCE_QUAT_DATA_WXYZ"]), SIMD_AVX2, ("simd_sse2_wxyz", SIMD_SSE2[1] + ["-DGLM_FORCE_QUAT_DATA_WXYZ"])], run.tier)
     run.fails = run.triage(fails)
     run.assumptions = ["real-number semantics of the traced expressions (sin/cos real functions); no rounding bounds",
                        "partial: quat(eulerAngles q) and the extractEulerAngleABC round trips are NOT theorems; they are exercised by oracle_C04 (long-double references, unit quaternions near axes / w~0 / w~+-1 / gimbal poles / near-ties of the largest component) in both storage orders",
@@ -335,7 +338,7 @@ def run_C09(run):
     trace_cov(run, stats)
     gens = [os.path.join(run.dir, m + ".v") for m, _ in cfgs if os.path.exists(os.path.join(run.dir, m + ".v"))]
     run.prove(gens, [], ["C09/P_C09.v", "C09/P_C09_lookat.v", "C09/P_C09_rigid.v"], "C09/Properties_C09.v")
-    fails = oracle_sweep(run, "C09", [("rh", []), ("lh", ["-DGLM_FORCE_LEFT_HANDED"]), ("rh_zo", ["-DGLM_FORCE_DEPTH_ZERO_TO_ONE"]), ("lh_zo", ["-DGLM_FORCE_LEFT_HANDED", "-DGLM_FORCE_DEPTH_ZERO_TO_ONE"])], run.tier)
+    fails = oracle_sweep(run, "C09", [("rh", []), ("lh", ["-DGLM_FORCE_LEFT_HANDED"]), ("rh_zo", ["-DGLM_FORCE_DEPTH_ZERO_TO_ONE"]), ("lh_zo", ["-DGLM_FORCE_LEFT_HANDED", "-DGLM_FORCE_DEPTH_ZERO_TO_ONE"]), SIMD_AVX2], run.tier)
     run.fails = run.triage(fails)
     run.assumptions = ["real-number semantics of the traced float expressions",
                        "partial: decompose/recompose, interpolate, extractMatrixRotation and axisAngle are exercised by oracle_C09 only (testing), not proved; lookAt's rigidity (orthonormal rows, det +1, up in the +y half-plane) is a theorem"]
@@ -351,7 +354,7 @@ def run_C13(run):
     trace_cov(run, stats)
     gens = [os.path.join(run.dir, m + ".v") for m, _ in cfgs if os.path.exists(os.path.join(run.dir, m + ".v"))]
     run.prove(gens, [], ["C13/P_C13.v", "C13/P_C13_cfg.v", "C13/P_C13_dual.v", "C13/P_C13_mix.v"], "C13/Properties_C13.v")
-    fails = oracle_sweep(run, "C13", [("default", []), ("wxyz", ["-DGLM_FORCE_QUAT_DATA_WXYZ"]), ("xyzw", ["-DGLM_FORCE_QUAT_DATA_XYZW"])], run.tier)
+    fails = oracle_sweep(run, "C13", [("default", []), ("wxyz", ["-DGLM_FORCE_QUAT_DATA_WXYZ"]), ("xyzw", ["-DGLM_FORCE_QUAT_DATA_XYZW"]), SIMD_AVX2, ("simd_sse2_wxyz", SIMD_SSE2[1] + ["-DGLM_FORCE_QUAT_DATA_WXYZ"])], run.tier)
     run.fails = run.triage(fails)
     run.assumptions = ["real-number semantics: acos/sin/cos are the real functions; the 'no NaN' statement is the real-valued guard (acos argument in [0,1-eps], sin(theta) <> 0) plus the assumption that libm's acos/sin return non-NaN values on in-range arguments",
                        "float-level effects (a dot product rounding above 1) are not visible in the real model: they are exercised by oracle_C13 (identical / nearly parallel / nearly antipodal pairs) - testing",
@@ -380,7 +383,7 @@ def run_C01(run):
         run.cov["model_level_failing_entries"] = names[:60]
         if names:
             run.broken.append({"what": "vector overloads whose component expression is not the scalar overload's: " + ", ".join(names[:20]), "detail": "entries of the regenerated catalogue failing lift_ok / cwm_ok"})
-    fails = oracle_sweep(run, "C01", [("float", ["-DORC_PART_FLOAT"]), ("double", ["-DORC_PART_DOUBLE"]), ("int", [])], run.tier)
+    fails = oracle_sweep(run, "C01", [("float", ["-DORC_PART_FLOAT"]), ("double", ["-DORC_PART_DOUBLE"]), ("int", []), ("simd_avx2_float", ["-DORC_PART_FLOAT"] + SIMD_AVX2[1]), ("simd_sse2_int", SIMD_SSE2[1])], run.tier)
     run.fails = run.triage(fails)
     run.assumptions = ["float (f32) and int/uint (32-bit) element types are traced; 8/16/64-bit integers, double and the mediump/lowp qualifiers are exercised by oracle_C01 only (testing): a tracing scalar does not fit in 8/16 bits",
                        "lowp inversesqrt (a specialisation on the concrete type float) is outside the trace: its 2^-8 relative error is tested by the oracle, not proved",
@@ -625,7 +628,7 @@ def run_C11(run):
     else: run.cov["constants_translated"] = out.strip()
     run.prove(gens + [gc], [], ["C11/P_C11_real.v", "C11/P_C11_nan.v", "C11/P_C11_round.v", "C11/P_C11_consts.v"], "C11/Properties_C11.v", timeout=900)
     run.run_corr("impl_C11.cpp", [run.seed, run.tier], flags=["-DNDEBUG"])
-    fails = oracle_sweep(run, "C11", [("all", ["-pthread", "-DNDEBUG"])], run.tier, opt="-O1")
+    fails = oracle_sweep(run, "C11", [("all", ["-pthread", "-DNDEBUG"]), ("simd_avx2", ["-pthread", "-DNDEBUG"] + SIMD_AVX2[1]), ("simd_sse2", ["-pthread", "-DNDEBUG"] + SIMD_SSE2[1])], run.tier, opt="-O1")
     run.fails = run.triage(fails)
     run.assumptions = ["traced functions: real-number semantics (exact arithmetic; floor/ceil/trunc/round are Flocq's Zfloor/Zceil/Ztrunc/ZnearestA); the rounding of each float operation (e.g. fract(-1e-8f) = 1) is outside the theorems and is covered by the oracle, which recomputes the GLSL formula in the same type",
                        "NaN semantics for fmin/fmax/fclamp: a value is a real number or NaN; infinities and signed zeros are not distinguished (oracle: the full special-value lattice incl. +-0, +-inf, NaN to the 4th power)",
